@@ -99,15 +99,15 @@ pub fn connected_sets_upto(dim: usize, n: usize) -> Vec<MSym> {
 pub fn adjacent_orbits(s: &MSym) -> Vec<(usize, usize, Vec<usize>, usize)> {
     let mut out = vec![];
     for i in 0..s.dim {
-        let mut seen = vec![false; s.n + 1];
+        let comp = s.components(&[i, i + 1]);
+        let nc = (1..=s.n).map(|d| comp[d]).max().map_or(0, |x| x + 1);
+        let mut members: Vec<Vec<usize>> = vec![vec![]; nc];
         for d in 1..=s.n {
-            if !seen[d] {
-                let orb = s.orbit(&[i, i + 1], d);
-                for &e in &orb {
-                    seen[e] = true;
-                }
-                out.push((i, d, orb, s.r(i, i + 1, d)));
-            }
+            members[comp[d]].push(d);
+        }
+        for orb in members {
+            let d = orb[0];
+            out.push((i, d, orb, s.r(i, i + 1, d)));
         }
     }
     out
@@ -346,4 +346,138 @@ pub fn random_larger_2d_symbols(seed: u64, count: usize, max_n: usize, pool: &[u
             random_branching(&mut rng, &s, pool)
         })
         .collect()
+}
+
+/// Branching numbers at representation boundaries (u8, u16, i32, u32, f64 mantissa).
+pub const BOUNDARY_VS: &[usize] = &[9, 10, 11, 99, 100, 255, 256, 257, 1000, 2048, 65535, 65536, 65537, 2147483647, 2147483648, 4294967295, 4294967296, 4294967297, 1099511627783, 9007199254740993];
+
+/// 2D strip with n chambers (n even, >= 2): op0 = (1 2)(3 4)..., op1 = (2 3)(4 5)... with 1 and n fixed,
+/// op2 = identity. One (0,1)-orbit, n/2 + 1 (1,2)-orbits. `distinct_v` gives every (1,2)-orbit its own
+/// branching number, which makes canonical-form computation linear (every seed differs at the first degree).
+pub fn strip_2d(n: usize, distinct_v: bool) -> MSym {
+    assert!(n >= 2 && n % 2 == 0);
+    let mut s = MSym::new(2, n);
+    for d in 1..=n {
+        s.op[0][d] = if d % 2 == 1 { d + 1 } else { d - 1 };
+        s.op[1][d] = if d == 1 || d == n { d } else if d % 2 == 0 { d + 1 } else { d - 1 };
+        s.op[2][d] = d;
+    }
+    if distinct_v {
+        // (1,2)-orbits: {1}, {2,3}, {4,5}, ..., {n}
+        for d in 1..=n {
+            s.v[1][d] = d / 2 + 1;
+        }
+    }
+    debug_assert!(s.is_valid_symbol());
+    s
+}
+
+/// D-set of all flags of a regular polytope / its antipodal quotient: the regular action of a
+/// Coxeter group (or the action on the cosets of a central subgroup) computed by the harness's
+/// Todd-Coxeter. `m` lists the Coxeter matrix entries above the diagonal row by row.
+pub fn coxeter_flag_set(m: &[&[usize]], quotient_word: Option<&[i64]>) -> MSym {
+    use crate::oracle::groups::{todd_coxeter, Pres, Word};
+    let n = m.len() + 1;
+    let mut rels: Vec<Word> = (1..=n as i64).map(|g| vec![g, g]).collect();
+    for i in 0..n {
+        for j in (i + 1)..n {
+            let mij = m[i][j - i - 1];
+            let mut w = vec![];
+            for _ in 0..mij {
+                w.push(i as i64 + 1);
+                w.push(j as i64 + 1);
+            }
+            rels.push(w);
+        }
+    }
+    let sub: Vec<Word> = quotient_word.map(|w| vec![w.to_vec()]).unwrap_or_default();
+    let t = todd_coxeter(&Pres { ngens: n, rels }, &sub, 100_000).expect("finite Coxeter group");
+    let mut s = MSym::new(n - 1, t.rows());
+    for r in 0..t.rows() {
+        for i in 0..n {
+            s.op[i][r + 1] = t.act(r, i as i64 + 1) + 1;
+        }
+    }
+    assert!(s.is_complete_set() && s.ops_are_involutions() && s.far_ops_commute() && s.is_connected());
+    s
+}
+
+/// Named large structured D-sets: flags of the Platonic solids and of projective-plane maps.
+pub fn structured_2d_sets() -> Vec<(&'static str, MSym)> {
+    let cox3 = |w: &[i64], k: usize| -> Vec<i64> { let mut r = vec![]; for _ in 0..k { r.extend_from_slice(w); } r };
+    vec![
+        ("tetrahedron flags (24)", coxeter_flag_set(&[&[3, 2], &[3]], None)),
+        ("cube flags (48)", coxeter_flag_set(&[&[4, 2], &[3]], None)),
+        ("hemi-cube flags (24, projective plane)", coxeter_flag_set(&[&[4, 2], &[3]], Some(&cox3(&[1, 2, 3], 3)))),
+        ("hemi-dodecahedron flags (60, projective plane)", coxeter_flag_set(&[&[5, 2], &[3]], Some(&cox3(&[1, 2, 3], 5)))),
+        ("dodecahedron flags (120)", coxeter_flag_set(&[&[5, 2], &[3]], None)),
+        ("square torus map {4,4}_(2,0) flags (32)", torus_44(2)),
+        ("square torus map {4,4}_(3,0) flags (72)", torus_44(3)),
+    ]
+}
+
+/// Flags of the {4,4} map on the torus with k x k squares: the (2,4,4) triangle group modulo the
+/// translation lattice k Z^2, computed as a coset action.
+fn torus_44(k: usize) -> MSym {
+    // Coxeter group [4,4]: s0 s1 order 4, s1 s2 order 4, s0 s2 order 2; translations: (s0 s1 s2 s1) and (s1 s0 s1 s2)...
+    // quotient by the k-th powers of two independent translations t1 = s1 s2 s1 s0 ... use standard
+    // generators of the translation subgroup: a = s0 s1 s2 s1, b = s1 s0 s1 s2 (both translations by one square)
+    use crate::oracle::groups::{todd_coxeter, Pres, Word};
+    let pw = |w: &[i64], k: usize| -> Word { let mut r = vec![]; for _ in 0..k { r.extend_from_slice(w); } r };
+    let rels: Vec<Word> = vec![vec![1, 1], vec![2, 2], vec![3, 3], pw(&[1, 2], 4), pw(&[2, 3], 4), pw(&[1, 3], 2)];
+    let a: Word = vec![1, 2, 3, 2];
+    let b: Word = vec![2, 1, 2, 3];
+    // normal closure is needed for a quotient GROUP; for a D-set any subgroup of finite index works,
+    // so we take the subgroup generated by a^k, b^k and their conjugates by the generators
+    let mut subs: Vec<Word> = vec![];
+    for t in [pw(&a, k), pw(&b, k)] {
+        subs.push(t.clone());
+        for g in 1..=3i64 {
+            let mut c = vec![g];
+            c.extend_from_slice(&t);
+            c.push(g);
+            subs.push(c);
+        }
+    }
+    let t = todd_coxeter(&Pres { ngens: 3, rels }, &subs, 100_000).expect("finite index");
+    let mut s = MSym::new(2, t.rows());
+    for r in 0..t.rows() {
+        for i in 0..3 {
+            s.op[i][r + 1] = t.act(r, i as i64 + 1) + 1;
+        }
+    }
+    assert!(s.is_complete_set() && s.ops_are_involutions() && s.far_ops_commute() && s.is_connected());
+    s
+}
+
+/// Flags of regular 4-polytopes (3D D-sets): 5-cell (120), tesseract (384).
+pub fn structured_3d_sets() -> Vec<(&'static str, MSym)> {
+    vec![
+        ("5-cell flags (120)", coxeter_flag_set(&[&[3, 2, 2], &[3, 2], &[3]], None)),
+        ("tesseract flags (384)", coxeter_flag_set(&[&[4, 2, 2], &[3, 2], &[3]], None)),
+    ]
+}
+
+/// Connected 2D set with 4k chambers whose 2-orbits all have at most 4 chambers: k blocks
+/// {a,b,c,d} with op0 = (a b)(c d), op2 = (a c)(b d); op1 joins d of block j to a of block j+1 and
+/// fixes everything else. Suitable for very large sizes (every query is cheap).
+pub fn ladder_2d(k: usize) -> MSym {
+    let n = 4 * k;
+    let mut s = MSym::new(2, n);
+    for j in 0..k {
+        let (a, b, c, d) = (4 * j + 1, 4 * j + 2, 4 * j + 3, 4 * j + 4);
+        s.op[0][a] = b; s.op[0][b] = a; s.op[0][c] = d; s.op[0][d] = c;
+        s.op[2][a] = c; s.op[2][c] = a; s.op[2][b] = d; s.op[2][d] = b;
+        for x in [a, b, c, d] {
+            s.op[1][x] = x;
+        }
+    }
+    for j in 0..(k - 1) {
+        let d = 4 * j + 4;
+        let a = 4 * (j + 1) + 1;
+        s.op[1][d] = a;
+        s.op[1][a] = d;
+    }
+    debug_assert!(s.is_complete_set() && s.ops_are_involutions() && s.far_ops_commute());
+    s
 }
